@@ -143,12 +143,15 @@ func loadProgram(repo, harnessDir, rtDir string, tags string, shared []string) (
 		ld.modulePath = initial[0].Module.Path
 	}
 	ld.rtPath = ld.modulePath + "/internal/verifrt"
+	ld.harnessPkgDirs = nil
 	for i, p := range initial {
 		sp := pkgs[i]
 		if sp == nil {
 			return nil, fmt.Errorf("no SSA for %s", p.PkgPath)
 		}
 		ld.pkgs = append(ld.pkgs, sp)
+		// keep dirs aligned with pkgs (packages.Load does not preserve pattern order)
+		ld.harnessPkgDirs = append(ld.harnessPkgDirs, strings.TrimPrefix(strings.TrimPrefix(p.PkgPath, ld.modulePath), "/"))
 		var names []string
 		for name, mem := range sp.Members {
 			if f, ok := mem.(*ssa.Function); ok && strings.HasPrefix(name, "VH_") {
